@@ -2,6 +2,7 @@ package stdlib
 
 import (
 	"bufio"
+	"fmt"
 	"io"
 	"net"
 	"net/http"
@@ -59,9 +60,39 @@ func (w _ioWriterReadFrom) Write(p []byte) (n int, err error) { return w.WWrite(
 
 func (w _ioWriterReadFrom) ReadFrom(r io.Reader) (n int64, err error) { return w.WReadFrom(r) }
 
+// In fmt, a Stringer is formatted by its String method for the verbs valid for strings
+// only (%v %s %x %X %q). The other verbs apply to the value itself (%d for an integer type
+// with a String method), which is not the wrapper.
+
+type _fmtStringerFormatter struct {
+	IValue  interface{}
+	WString func() string
+}
+
+func (w _fmtStringerFormatter) String() string { return _fmt_Stringer(w).String() }
+
+func (w _fmtStringerFormatter) Format(f fmt.State, verb rune) {
+	switch verb {
+	case 'v', 's', 'x', 'X', 'q':
+		if !f.Flag('#') || verb != 'v' {
+			fmt.Fprintf(f, fmt.FormatString(f, verb), _fmt_Stringer(w))
+			return
+		}
+	}
+	if k := reflect.ValueOf(w.IValue).Kind(); k == reflect.Invalid || k == reflect.Struct {
+		// The value of a struct is not available here.
+		fmt.Fprintf(f, fmt.FormatString(f, verb), _fmt_Stringer(w))
+		return
+	}
+	fmt.Fprintf(f, fmt.FormatString(f, verb), w.IValue)
+}
+
 // Each MapType value (each slice) must be sorted by complexity, i.e. by number
 // of interface methods.
 func init() {
+	MapTypes[reflect.ValueOf((*_fmt_Stringer)(nil))] = []reflect.Type{
+		reflect.ValueOf((*_fmtStringerFormatter)(nil)).Type().Elem(),
+	}
 	MapTypes[reflect.ValueOf((*_net_http_ResponseWriter)(nil))] = []reflect.Type{
 		reflect.ValueOf((*_netHTTPResponseWriterHijacker)(nil)).Type().Elem(),
 	}
